@@ -102,9 +102,11 @@ def run(ctx: Any) -> None:
     ctx.prove(
         ["prop/P_C03.vo", "tie/T_Dataclass.vo", "refuted/R_C03.vo"],
         {
-            "P_C03": ["C03_arrow_roundtrip", "C03_compact_agrees", "C03_compact_declines_without_msgpack", "C03_state_bytes_roundtrip", "C03_state_bytes_dispatch"],
-            "T_Dataclass": ["cfg_tie", "C03_source_arrow_roundtrip", "C03_source_state_bytes_roundtrip"],
-            "R_C03": ["C03_old_set_of_enum_refuted", "C03_old_dict_of_dataclass_refuted", "C03_old_enum_keys_refuted", "C03_old_set_of_dataclass_refuted"],
+            "P_C03": ["C03_serialize_total", "C03_arrow_roundtrip_partial", "C03_compact_agrees", "C03_compact_declines_without_msgpack",
+                      "C03_state_bytes_roundtrip_partial", "C03_state_bytes_dispatch"],
+            "T_Dataclass": ["cfg_tie", "C03_source_arrow_roundtrip_partial", "C03_source_state_bytes_roundtrip_partial", "C03_source_compact_agrees"],
+            "R_C03": ["C03_old_set_of_enum_refuted", "C03_old_dict_of_dataclass_refuted", "C03_old_enum_keys_refuted", "C03_old_set_of_dataclass_refuted",
+                      "C03_none_nested_dataclass_with_enum_refuted"],
         },
     )
 
@@ -175,6 +177,13 @@ def run(ctx: Any) -> None:
         ctx.tally("class_source", "targeted")
         for _ in range(n_inst):
             observe(cd, gen.gen_instance(cd), True, "targeted")
+    # the class of instances the partial theorem excludes (pyarrow full validation), built explicitly
+    einner = gen.gen_class(0, force=[E(1)])
+    haz = gen.gen_class(2, force=[L(O(C(einner))), D(S("str"), O(C(einner))), O(C(einner))])
+    red = einner.pycls(fld_0=H.Color.RED)
+    for kw in ({"fld_0": [None], "fld_1": {}, "fld_2": None}, {"fld_0": [red, None], "fld_1": {"k": None}, "fld_2": None},
+               {"fld_0": [red, None], "fld_1": {"k": None, "j": red}, "fld_2": None}, {"fld_0": [], "fld_1": {}, "fld_2": None}):
+        observe(haz, haz.pycls(**kw), True, "none-nested-dataclass-with-enum")
     n_classes = 110 if quick else 900
     for _ in range(n_classes):
         d = ctx.rng.choice([0, 1, 2, 2, 3, 3])
